@@ -45,10 +45,11 @@ type c23Op struct {
 }
 
 type c23Scenario struct {
-	setup   []c23Op // executed sequentially by the main thread before the concurrent threads start
-	name    string
-	threads [][]c23Op
-	fails   bool // loader failures are explorer choices
+	slowLoad bool    // every storage read takes 10 ms of virtual time: other requests arrive while a load is in flight
+	setup    []c23Op // executed sequentially by the main thread before the concurrent threads start
+	name     string
+	threads  [][]c23Op
+	fails    bool // loader failures are explorer choices
 }
 
 func c23Scenarios(thorough bool) []c23Scenario {
@@ -80,6 +81,9 @@ func c23Scenarios(thorough bool) []c23Scenario {
 		// play-mode and ordinary requests share a bucket: what the play request may accept (rows up to one
 		// second stale) must not leak to an ordinary request that meets its reload in flight
 		{name: "play request reloads after invalidate, ordinary get meets it", setup: T(G(0, 0, 60)), threads: [][]c23Op{T(I(5), GP(0, 0, 60)), T(G(0, 0, 60))}},
+		// a slow multi-chunk load that fails while other requests await different chunks of it: every awaiter must
+		// be told (a request that stops listening after the first error must not strand the others)
+		{name: "slow three-chunk load fails, awaiters on its chunks", fails: true, slowLoad: true, threads: [][]c23Op{T(G(0, 0, 180)), T(G(0, 0, 120)), T(G(0, 120, 180))}},
 		{name: "loader failures", fails: true, threads: [][]c23Op{T(G(0, 0, 60), G(0, 0, 60)), T(G(0, 30, 60))}},
 	}
 	if thorough {
@@ -119,6 +123,9 @@ func c23Run(x *mc.Exec, sc c23Scenario, rep *mc.Report) mc.Verdict {
 		w.base = ((epochSec - 7200) / 120) * 120
 		h := &requestHandler{Handler: &Handler{HandlerOptions: HandlerOptions{location: time.UTC}}}
 		loader := func(_ context.Context, _ *requestHandler, q *queryBuilder, lod data_model.LOD, ret [][]tsSelectRow, _ int) (int, error) {
+			if sc.slowLoad {
+				vtime.Sleep(10 * time.Millisecond)
+			}
 			vsched.Point("storage read")
 			w.loads++
 			id := w.loads
